@@ -200,6 +200,11 @@ def r5(ctx):
     u = [tm for bi, t, tm in b.real_calls() if mir.short(tm[1]) == "DrawdownGenerator::update"]
     ctx.check("TearSheetGenerator::update_from_position", len(u) == 1 and render(u[0][2][1]) == "Timed::Timed{value: self.pnl_returns.pnl_raw, time: self.time_engine_now}"
               and render(u[0][2][0]) == "self.pnl_drawdown", "the PnL curve point is (cumulative realised PnL, exit time)", got=[render(x) for x in u], key="curve")
+    for nm, bb in (("TearSheetGenerator::update_from_position", b), ("TearSheetAssetGenerator::update_from_balance", ctx.fbody(name="update_from_balance", self_adt=TA, trait=""))):
+        us = [bi for bi, t, tm in bb.real_calls() if mir.short(tm[1]) == "DrawdownGenerator::update"]
+        ctx.check(nm, len(us) == 1 and bb.guard(us[0]) == frozenset([frozenset()]),
+                  "every point of the curve is fed to the drawdown generator (unconditionally - a skipped point can hide a trough or a peak)",
+                  got=[render_guard(bb.guard(x))[:200] for x in us], key="every-point")
     pu = [bi for bi, t, tm in b.real_calls() if mir.short(tm[1]) == "PnLReturns::update"]
     du = [bi for bi, t, tm in b.real_calls() if mir.short(tm[1]) == "DrawdownGenerator::update"]
     ctx.check("TearSheetGenerator::update_from_position", len(pu) == 1 and len(du) == 1 and b.dominates(pu[0], du[0]) and pu[0] != du[0],
